@@ -6,6 +6,8 @@
 //!        one row), random directed pulls, rounds until quiescence at the end
 //!   C11  3-4 peers: rows spread, then deletions racing with pulls, rounds until quiescence at the end; three of
 //!        five cases are scenarios (`scenario`): reference deletion vs unaware edit, late moderator, stale version
+//!   C11del  3-4 peers: deletion scenarios only (`del_scenario`): a row and its deletion record meeting in either
+//!        order, references of the deleted row, deletion on the day of the last change or on a later day
 use dvcommon::{Args, Gen};
 use rand::seq::SliceRandom;
 use std::collections::{BTreeMap, BTreeSet};
@@ -425,6 +427,112 @@ fn scenario(g: &mut Gen, id: usize, which: usize) -> Vec<String> {
     out
 }
 
+/// Deletion scenarios (`--prop C11del`): the paths on which a row and its deletion record meet in either order
+///   0  a peer applies a deletion (its own or a pulled one) and then pulls from a peer that has not seen it; the
+///      deleter then pulls from that peer
+///   1  the unaware peer edits the row after the deletion: a peer receives the newer version first, the deletion
+///      record second, and is offered the newer version again
+///   2  rows that refer to each other (one reference deleted beforehand), the row is deleted on a later day than its
+///      last change, an unaware peer still holds the row and its references
+/// The deletion falls on the day of the row's last change or on a later day; the target may be the source or the
+/// target of the references.
+fn del_scenario(g: &mut Gen, id: usize, which: usize) -> Vec<String> {
+    let peers = 3 + g.below(2);
+    let mut pool: Vec<u64> = (2_000_001..=2_000_600).collect();
+    pool.shuffle(&mut g.rng);
+    let mut sig = move || pool.pop().unwrap();
+    let mut out: Vec<String> = vec![format!("case id={} peers={} rights={}", id, peers, vec!["a"; peers].join(","))];
+    let mut t: u64 = 1000;
+    let mut val = 0u64;
+    out.push("clock t=1000".into());
+    let owner = g.below(peers);
+    let nrows = 2 + g.below(2) as u64;
+    for r in 1..=nrows {
+        val += 1;
+        let ent = if r == 3 && g.chance(1, 2) { 1 } else { 0 };
+        out.push(format!("new p={} row={} room=1 ent={} val={} sig={}", owner, r, ent, val, sig()));
+    }
+    // references between rows 1 and 2 (both Person)
+    let mut refs: Vec<(u64, u64)> = vec![];
+    if which == 2 || g.chance(1, 2) {
+        refs.push((1, 2));
+        if which == 2 || g.chance(1, 2) {
+            refs.push((2, 1));
+        }
+    }
+    for (a, b) in &refs {
+        t += 1 + g.below(50) as u64;
+        out.push(format!("clock t={}", t));
+        out.push(format!("ref p={} row={} to={} sig={}", owner, a, b, sig()));
+    }
+    out.push(format!("compute p={}", owner));
+    for d in 0..peers {
+        if d != owner {
+            out.push(format!("pull dst={} src={} room=1", d, owner));
+        }
+    }
+    let step = |g: &mut Gen, t: &mut u64, out: &mut Vec<String>, later_day: bool| {
+        *t += if later_day {
+            match g.below(3) {
+                0 => DAY - g.below(1000) as u64,
+                1 => DAY + g.below(1000) as u64,
+                _ => 2 * DAY + g.below(1000) as u64,
+            }
+        } else {
+            1 + g.below(500) as u64
+        };
+        out.push(format!("clock t={}", *t));
+    };
+    let a = g.below(peers);
+    let b = (a + 1 + g.below(peers - 1)) % peers;
+    let c = (0..peers).find(|x| *x != a && *x != b).unwrap();
+    if which == 2 {
+        // one reference is deleted first (its record travels with the source row's new version)
+        let later_day = g.chance(1, 3);
+        step(g, &mut t, &mut out, later_day);
+        let del_by = if g.chance(1, 2) { a } else { owner };
+        out.push(format!("unref p={} row=1 to=2 sig={} dsig={}", del_by, sig(), sig()));
+        out.push(format!("compute p={}", del_by));
+        for d in 0..peers {
+            if d != del_by && g.chance(2, 3) {
+                out.push(format!("pull dst={} src={} room=1", d, del_by));
+            }
+        }
+    }
+    // the deletion: same day as the row's last change, or a later day
+    let later = which == 2 || g.chance(1, 2);
+    step(g, &mut t, &mut out, later);
+    let target = 1 + g.below(2) as u64;
+    out.push(format!("del p={} row={} dsig={}", a, target, sig()));
+    out.push(format!("compute p={}", a));
+    match which {
+        1 => {
+            // the unaware edit, later than the deletion
+            let later_day = g.chance(1, 3);
+            step(g, &mut t, &mut out, later_day);
+            val += 1;
+            out.push(format!("upd p={} row={} val={} sig={}", c, target, val, sig()));
+            out.push(format!("compute p={}", c));
+            out.push(format!("pull dst={} src={} room=1", b, c));
+            out.push(format!("pull dst={} src={} room=1", b, a));
+            out.push(format!("pull dst={} src={} room=1", b, c));
+            out.push(format!("pull dst={} src={} room=1", a, c));
+        }
+        _ => {
+            out.push(format!("pull dst={} src={} room=1", b, a));
+            out.push(format!("pull dst={} src={} room=1", b, c));
+            out.push(format!("pull dst={} src={} room=1", a, b));
+        }
+    }
+    for _ in 0..g.below(4) {
+        let d = g.below(peers);
+        let s2 = (d + 1 + g.below(peers - 1)) % peers;
+        out.push(format!("pull dst={} src={} room=1", d, s2));
+    }
+    out.push("settle room=0 max=8".into());
+    out
+}
+
 fn one_case(g: &mut Gen, prop: &str, id: usize, len: usize) -> Vec<String> {
     let peers = match prop {
         "C09" => 1 + g.below(2),
@@ -665,7 +773,13 @@ pub fn generate(a: &Args) {
     let len = a.usize_or("len", 14);
     let mut w = BufWriter::new(std::fs::File::create(a.str_or("out", "cases.ops")).unwrap());
     for id in 0..n {
-        let lines = if prop == "C11" && id % 5 < 3 { scenario(&mut g, id, id % 5) } else { one_case(&mut g, &prop, id, len) };
+        let lines = if prop == "C11del" {
+            del_scenario(&mut g, id, id % 3)
+        } else if prop == "C11" && id % 5 < 3 {
+            scenario(&mut g, id, id % 5)
+        } else {
+            one_case(&mut g, &prop, id, len)
+        };
         for l in lines {
             writeln!(w, "{}", l).unwrap();
         }
